@@ -1007,6 +1007,12 @@ def _plain_iterable(it):
 def small_rewrites(t):
     from .ssa import apply_lam
     h = head(t)
+    if h == "list" and len(t[1]) >= 2 and head(strip(t[1][0])) == "star" and all(head(strip(x)) != "star" for x in t[1][1:]):
+        # [*xs, a, b]  ==  list(xs) with a, b appended
+        out = ("call", ("glob", "builtins.list"), (strip(t[1][0])[1],), ())
+        for x in t[1][1:]:
+            out = ("mut", "append", out, (x,), ())
+        return out
     if h == "citer" and len(t) == 4 and _plain_iterable(t[3]) is not t[3]:
         return (t[0], t[1], t[2], _plain_iterable(t[3]))
     if h == "elem" and len(t) == 3 and _plain_iterable(t[2]) is not t[2]:
@@ -1028,6 +1034,46 @@ def small_rewrites(t):
         return t
     if h == "call":
         f = strip(t[1])
+        # f(*(a,), **{}) left behind by partial / map read-through:  f(a)
+        if any(head(a) == "star" and head(strip(a[1])) in ("tuple", "list") for a in t[2]) or any(k == "**" and head(strip(v)) in ("dmerge", "dict") and not strip(v)[1] for k, v in t[3]):
+            t2 = expand_star_literals(("call", t[1], t[2], tuple((k, v) for k, v in t[3] if not (k == "**" and head(strip(v)) in ("dmerge", "dict") and not strip(v)[1]))))
+            if t2 != t:
+                return small_rewrites(t2)
+        if any(k == "**" and head(strip(v)) == "dmerge" and strip(v)[1] and all(l[0] == "lit" and all(is_const(strip(kk)) and isinstance(strip(kk)[2], str) for kk, _ in l[1]) for l in strip(v)[1]) for k, v in t[3]):
+            # f(**{'gene': x}, species=s)  ==  f(gene=x, species=s): a literal option layer is a list of keywords
+            kws, names = [], [k for k, _ in t[3] if k != "**"]
+            for k, v in t[3]:
+                if k == "**" and head(strip(v)) == "dmerge" and strip(v)[1] and all(l[0] == "lit" for l in strip(v)[1]):
+                    merged = {}
+                    for l in strip(v)[1]:
+                        for kk, vv in l[1]:
+                            merged[strip(kk)[2]] = vv
+                    if any(n_ in names for n_ in merged):
+                        return t          # (a repeated keyword is a TypeError at run time: not this rewrite's business)
+                    kws.extend(merged.items())
+                else:
+                    kws.append((k, v))
+            return small_rewrites(("call", t[1], t[2], tuple(kws)))
+        # x.apply(partial(f, k=v)) / map(partial(f, k=v), xs): the caller hands over exactly one argument - the variadic lambda a partial was
+        # read as is specialised to lambda x: f(x, k=v)
+        one_arg_caller = (head(f) == "attr" and f[2] in ("apply", "map", "transform", "agg") and len(t[2]) == 1 and not t[3]) or \
+            (head(f) == "glob" and f[1] in ("builtins.map", "builtins.filter") and len(t[2]) == 2 and not t[3])
+        if one_arg_caller:
+            def unary(l_):
+                l_ = strip(l_)
+                if head(l_) == "ite":
+                    a_, b_ = unary(l_[2]), unary(l_[3])
+                    return ("ite", l_[1], a_, b_) if (a_ is not l_[2] or b_ is not l_[3]) else l_
+                if head(l_) == "lam" and tuple(p_[2] for p_ in l_[2]) == ("var", "kw") and isinstance(l_[1], tuple) and l_[1] and l_[1][0] == "#partial":
+                    lid = ("#unary",) + tuple(l_[1][1:])
+                    x_ = ("lparam", lid, "x")
+                    red = apply_lam(l_, (x_,), {})
+                    if red is not None:
+                        return ("lam", lid, (("x", None, "pos"),), red)
+                return l_
+            new_l = unary(t[2][0])
+            if new_l is not strip(t[2][0]) and new_l != strip(t[2][0]):
+                return small_rewrites(("call", t[1], (new_l,) + tuple(t[2][1:]), t[3]))
         # (f if c else g)(args)  ->  f(args) if c else g(args), lambdas beta-reduced
         if head(f) == "ite":
             a = small_rewrites(("call", f[2], t[2], t[3]))
